@@ -84,6 +84,9 @@ def parse(line):
             ev.append({"kind": "peek", "pid": t[i + 1], "op": PEEK, "obj": t[i + 2], "t": t[i + 3],
                        "val": t[i + 5:i + 5 + n], "line": len(ev)})
             i += 5 + n
+        elif k == 4:
+            ev.append({"kind": "solve", "pid": 0, "op": -1, "obj": -1, "val": 0, "t": t[i + 5], "line": len(ev)})
+            i += 6
         elif k == 9:
             if status is None or t[i + 1] != 0:
                 status, endt = t[i + 1], t[i + 5]
@@ -102,6 +105,8 @@ def ops_of(log, obj):
     reqs = []
     pending = {}
     for e in log["events"]:
+        if e["kind"] == "solve":
+            continue
         if e["kind"] == "req":
             if e["obj"] == obj and e["op"] != SLEEP:
                 o = {"pid": e["pid"], "op": e["op"], "arg": e["val"], "t": e["t"], "line": e["line"], "ret": None}
